@@ -132,3 +132,32 @@ func C16SameHeader(a, b http.Header) bool {
 	}
 	return true
 }
+
+// C16SameDescription: header map `after` describes the same request as `before`: same keys, the
+// two in-band order lists identical entry by entry, every other key with as many values, each
+// value equal up to what every writer does to it anyway (CR / LF to space, surrounding blanks
+// trimmed — idempotent, so a later write renders the same line). The HTTP/1.1 writer sanitises
+// the values it writes in place (header.go headerWriteSubset: kv.Values[i] = vv).
+func C16SameDescription(after, before http.Header) bool {
+	if len(after) != len(before) {
+		return false
+	}
+	san := func(v string) string {
+		return strings.Trim(strings.NewReplacer("\n", " ", "\r", " ").Replace(v), " \t")
+	}
+	for k, vb := range before {
+		va, ok := after[k]
+		if !ok || len(va) != len(vb) {
+			return false
+		}
+		for i := range vb {
+			if va[i] == vb[i] {
+				continue
+			}
+			if k == C01HeaderOrderKey || k == C01PseudoHeaderOrderKey || san(va[i]) != san(vb[i]) {
+				return false
+			}
+		}
+	}
+	return true
+}
